@@ -46,8 +46,32 @@ def v_small(value, _port):
         return None
 
 
+def v_neg_empty(value, _port):
+    # rejects with an empty message (e.g. `return str(exc)` around a bare assert): any non-None result is a rejection
+    if isinstance(value, (int, float)) and not isinstance(value, bool) and value < 0:
+        return ''
+    return None
+
+
+def v_legacy_has_a(value):
+    # the deprecated one-argument signature (plumpy warns and still calls it)
+    try:
+        return None if 'a' in value else 'key a missing'
+    except TypeError:
+        return 'not a container'
+
+
+def v_legacy_nonneg(value):
+    if isinstance(value, (int, float)) and not isinstance(value, bool) and value < 0:
+        return 'negative'
+    return None
+
+
 VALIDATORS = {
     None: None,
+    'neg_empty': v_neg_empty,
+    'legacy_has_a': v_legacy_has_a,
+    'legacy_nonneg': v_legacy_nonneg,
     'nonneg': v_nonneg,
     'short': v_short,
     'never': v_never,
@@ -266,6 +290,14 @@ def parse(tree, values):
     return out
 
 
+def _call_validator(validator, value):
+    import inspect
+
+    if len(inspect.getfullargspec(validator)[0]) == 1:
+        return validator(value)
+    return validator(value, None)
+
+
 def _type_ok(value, tname):
     return tname is None or isinstance(value, TYPES[tname])
 
@@ -278,7 +310,7 @@ def _check_port(p, value):
     if not _type_ok(value, p['valid_type']):
         raise Reject('wrong type')
     validator = VALIDATORS[p['validator']]
-    if validator is not None and validator(value, None) is not None:
+    if validator is not None and _call_validator(validator, value) is not None:
         raise Reject('validator')
 
 
@@ -311,7 +343,7 @@ def validate(tree, values):
     if tree['valid_type'] is not None:
         _check_dynamic(tree, rest)
     validator = VALIDATORS[tree['validator']]
-    if validator is not None and validator(values, None) is not None:
+    if validator is not None and _call_validator(validator, values) is not None:
         raise Reject('namespace validator')
 
 
